@@ -28,9 +28,10 @@ def C(kind, id, args, extra=None):
 class Binder:
     """Builds fresh puan objects for an AST through the public constructors."""
 
-    def __init__(self, share=True, leaf_as_str=False):
+    def __init__(self, share=True, leaf_as_str=False, as_iter=False):
         self.share = share
         self.leaf_as_str = leaf_as_str
+        self.as_iter = as_iter      # hand list-typed `propositions` arguments over as one-shot iterators
         self.memo = {}     # ast -> object (last built)
         self.calls = 0     # constructor calls (transitions)
 
@@ -64,6 +65,8 @@ class Binder:
                 if extra and extra[0] == 'default':
                     return cc.Any(*kids, default=list(extra[1]) if extra[1] else None, variable=i)
                 return pg.Any(*kids, variable=i)
+            if self.as_iter:
+                kids = iter(kids) if kind in ('AtLeast', 'AtMost') else kids
             if kind == 'AtLeast':
                 if isinstance(extra, tuple) and extra[0] == 'sign':
                     return pg.AtLeast(extra[2], kids, variable=i, sign=extra[1])
@@ -88,8 +91,8 @@ class Binder:
         raise ValueError(ast)
 
 
-def bind(ast, share=True, leaf_as_str=False):
-    b = Binder(share, leaf_as_str)
+def bind(ast, share=True, leaf_as_str=False, as_iter=False):
+    b = Binder(share, leaf_as_str, as_iter)
     return b.bind(ast), b
 
 
